@@ -8,7 +8,7 @@
 #define HM_MAX 8
 #endif
 #define HM_KEYMAX 16
-struct hm_entry { uint8_t key[HM_KEYMAX]; uint64_t len, seed, h1, h2; };
+struct hm_entry { uint64_t k0, k1; uint64_t len, seed, h1, h2; };   /* key bytes packed little-endian into two words */
 static struct hm_entry hm[HM_MAX];
 static unsigned hm_n;        /* distinct arguments seen */
 static unsigned hm_calls;    /* calls */
@@ -17,18 +17,17 @@ static int hm_overflow;      /* a key longer than HM_KEYMAX or more than HM_MAX 
 void verif_hash128(uint8_t* key, uint64_t len, uint64_t seed, uint64_t* h1, uint64_t* h2) {
   hm_calls++;
   if (len > HM_KEYMAX) { hm_overflow = 1; *h1 = 0; *h2 = 0; return; }
-  for (unsigned j = 0; j < hm_n; j++) {
-    if (hm[j].len != len || hm[j].seed != seed) continue;
-    int same = 1;
-    for (unsigned b = 0; b < HM_KEYMAX; b++) if (b < len && hm[j].key[b] != key[b]) same = 0;
-    if (same) { *h1 = hm[j].h1; *h2 = hm[j].h2; hm_last = (int)j; return; }
-  }
+  uint64_t k0 = 0, k1 = 0;
+  for (unsigned b = 0; b < 8; b++) { if (b < len) k0 |= (uint64_t)key[b] << (8 * b); if (b + 8 < len) k1 |= (uint64_t)key[b + 8] << (8 * b); }
+  /* the table is scanned with a concrete trip count so that symex does not have to unwind on the (symbolic) fill level */
+  int found = -1;
+  for (unsigned j = 0; j < HM_MAX; j++) if (found < 0 && j < hm_n && hm[j].len == len && hm[j].seed == seed && hm[j].k0 == k0 && hm[j].k1 == k1) found = (int)j;
+  if (found >= 0) { *h1 = hm[found].h1; *h2 = hm[found].h2; hm_last = found; return; }
   if (hm_n >= HM_MAX) { hm_overflow = 1; *h1 = 0; *h2 = 0; return; }
   struct hm_entry* e = &hm[hm_n];
-  for (unsigned b = 0; b < HM_KEYMAX; b++) e->key[b] = b < len ? key[b] : 0;
-  e->len = len; e->seed = seed; e->h1 = ND_U64(); e->h2 = ND_U64();
+  e->k0 = k0; e->k1 = k1; e->len = len; e->seed = seed; e->h1 = ND_U64(); e->h2 = ND_U64();
   *h1 = e->h1; *h2 = e->h2; hm_last = (int)hm_n; hm_n++;
 }
 uint64_t verif_hash64(uint8_t* key, uint64_t len, uint64_t seed) { uint64_t a, b; verif_hash128(key, len, seed, &a, &b); return a; }
-static uint64_t hm_key_u64(int j) { uint64_t v = 0; for (int b = 7; b >= 0; b--) v = (v << 8) | hm[j].key[b]; return v; }
+static uint64_t hm_key_u64(int j) { return hm[j].k0; }
 #endif
